@@ -97,3 +97,9 @@ claim("C14",
       "Excluded and stated: DO_TURBINE_WORK (configuration commented out), the two heat-pump targeting options (stochastic optimisers), area targeting with non-positive contributions (C15's precondition). One known finding: DO_INDIRECT_PROCESS_TARGETING=True raises for every input.",
       "deviation-bounded exhaustive configuration x input-shape enumeration on the real service (bound iterated 0,1,2)",
       "DESIGN.md section 4 C14")
+
+claim("C13",
+      "Every lattice problem (multisets of <=2/3 streams x <=2 zones x {no utilities, 4-level ladder}) x all 8 assignments of the graph-affecting options (balanced curves, vertical GCC, assisted transfer) through the service; for every record: exactly one graph set keyed and named by the record with the documented graph types (DI: CC, SCC, BCC iff balanced, GCC with its five series, GCC with heat pump; Total Process: none; Total Site: TSP, SUGCC), and for every emitted series against the table slice stored on the target: every point on the table curve, every table row of the non-flat extent recovered by interpolation through the emitted points (anisotropic 0.011 tolerance), segment classification = sign of the enthalpy change, extents = duties / Qc offset / Qh and Qc at the GCC ends, no series for an uncomputed column, no NaN.",
+      "The stored table slices are the reference (their own faithfulness to the streams is C05/C07).",
+      "bounded-exhaustive input x configuration enumeration on the real service with a geometric curve-equivalence oracle",
+      "DESIGN.md section 4 C13")
